@@ -755,3 +755,234 @@ theorem extItems_fold (d : Decoded) (h : WF d) : (extItems d).foldlM extension {
   rw [s11 _ rfl rfl]
 
 end Rpki.CertEnc
+
+namespace Rpki.CertEnc
+open Rpki.Der Rpki.CertDer Rpki.Chain Rpki.Consts
+
+/-! ### the fields in front of the extensions -/
+
+theorem takeSigAlg_enc (rest : Bytes) : takeSigAlg (sigAlgEnc ++ rest) = some (true, rest) := by
+  unfold takeSigAlg sigAlgEnc
+  rw [AsDer.takeCons_tlv' tagSeq _ rest (by decide) (by decide)]
+  simp only [IpDer.takePrim_tlv' tagOid oidSha256WithRsa (tlv tagNull []) (by decide) (by decide)]
+  have hn : takeOptNull (tlv tagNull []) = some (true, []) := by decide
+  simp [hn]
+
+theorem timeTlv_eq (c : X509.Civil) :
+    timeTlv c = tlv (Crl.timeTag (X509.encodeVaried c).1) (X509.encodeVaried c).2 := by
+  unfold timeTlv Crl.timeTag
+  simp only
+  cases h : (X509.encodeVaried c).1 <;> rfl
+
+theorem takeValidityCivil_enc (nb na : X509.Civil) (rest : Bytes)
+    (h1 : X509.validCivil nb = true ∧ nb.y ≤ 9999) (h2 : X509.validCivil na = true ∧ na.y ≤ 9999) :
+    takeValidityCivil (tlv tagSeq (timeTlv nb ++ timeTlv na) ++ rest) = some (nb, na, rest) := by
+  unfold takeValidityCivil
+  rw [AsDer.takeCons_tlv' tagSeq _ rest (by decide) (by decide), timeTlv_eq nb, timeTlv_eq na]
+  dsimp only
+  rw [Crl.takeTime_encodeVaried nb _ h1.1 h1.2]
+  have := Crl.takeTime_encodeVaried na [] h2.1 h2.2
+  rw [List.append_nil] at this
+  simp [this]
+
+theorem takeBitString_enc (u : Nat) (bits rest : Bytes)
+    (h : Manifest.bitStringTake (u :: bits) = some (u, bits)) :
+    takeBitString (tlv tagBitString (u :: bits) ++ rest) = some (u, bits, rest) := by
+  unfold takeBitString
+  rw [IpDer.takePrim_tlv' tagBitString _ rest (by decide) (by decide)]
+  simp [h]
+
+theorem takePublicKey_enc (alg : KeyAlg) (u : Nat) (bits rest : Bytes)
+    (h : Manifest.bitStringTake (u :: bits) = some (u, bits)) :
+    takePublicKey (publicKeyEnc alg u bits ++ rest) = some (alg, u, bits, rest) := by
+  unfold takePublicKey publicKeyEnc
+  rw [AsDer.takeCons_tlv' tagSeq _ rest (by decide) (by decide)]
+  have hb := takeBitString_enc u bits [] h
+  rw [List.append_nil] at hb
+  cases alg with
+  | rsa =>
+    dsimp only
+    rw [AsDer.takeCons_tlv' tagSeq _ _ (by decide) (by decide)]
+    dsimp only
+    rw [takeOid_tlv oidRsaEncryption _ (by decide)]
+    have hn : takeOptNull (tlv tagNull []) = some (true, []) := by decide
+    simp [hn, hb]
+  | ecP256 =>
+    dsimp only
+    rw [AsDer.takeCons_tlv' tagSeq _ _ (by decide) (by decide)]
+    dsimp only
+    rw [takeOid_tlv oidEcPublicKey _ (by decide)]
+    have hne : ¬ oidEcPublicKey = oidRsaEncryption := by decide
+    have ho := takePrim_tlv_nil tagOid oidSecp256r1 (by decide) (by decide)
+    simp [hne, ho, hb]
+
+end Rpki.CertEnc
+
+namespace Rpki.CertEnc
+open Rpki.Der Rpki.CertDer Rpki.Chain Rpki.Consts
+
+theorem optClaim_getD (cl : Claim) : (optClaim cl).getD .missing = cl := by
+  cases cl <;> rfl
+
+/-- what `decodeTbs` returns for the octets `encodeTbs d` writes: `d` itself, with the algorithm parameter
+as `x509_encode` writes it and the instants computed from the calendar times -/
+def readBack (d : Decoded) (op : Bool) (sig : Bytes) : Decoded :=
+  { d with innerParam := true, outerParam := op,
+           validity := ⟨civilToEpoch d.notBefore, civilToEpoch d.notAfter⟩,
+           tbs := encodeTbs d, signature := sig }
+
+/-- the end of the reader on the state the extension loop reaches -/
+theorem finishTbs_final (d : Decoded) (h : WF d) (op : Bool) (raw sig : Bytes) :
+    finishTbs d.serial true op d.issuer d.subject d.notBefore d.notAfter d.keyAlg d.keyUnused d.keyBits raw sig
+      (finalExts d) =
+    some { d with innerParam := true, outerParam := op,
+                  validity := ⟨civilToEpoch d.notBefore, civilToEpoch d.notAfter⟩, tbs := raw, signature := sig } := by
+  obtain ⟨serial, innerParam, outerParam, issuer, subject, validity, notBefore, notAfter, keyAlg, keyUnused, keyBits,
+    basicCa, ski, aki, keyUsage, eku, ekuContent, crlUri, caIssuer, sia, trim, v4, v6, asn, tbs, signature⟩ := d
+  have hpres := h.present
+  simp only at hpres
+  have hsia : (if sia.caRepository.isSome = true ∨ sia.rpkiManifest.isSome = true ∨ sia.signedObject.isSome = true ∨
+        sia.rpkiNotify.isSome = true then some sia else none).getD {} = sia := by
+    obtain ⟨r, m, o, n⟩ := sia
+    cases r <;> cases m <;> cases o <;> cases n <;> simp
+  have hmiss : ∀ cl : Claim, ¬ Cert.isPresent cl = true → Claim.missing = cl := by
+    intro cl hc; cases cl <;> simp_all [Cert.isPresent]
+  unfold finishTbs finalExts
+  simp only
+  by_cases hip : Cert.isPresent v4 = true ∨ Cert.isPresent v6 = true
+  · by_cases has : Cert.isPresent asn = true
+    · simp [hip, has, optClaim_getD, hsia]
+    · have := hmiss asn has
+      subst this
+      have hm : Cert.isPresent Claim.missing = false := rfl
+      simp [hip, hm, optClaim_getD, hsia]
+  · have has : Cert.isPresent asn = true := by
+      rcases hpres with h1 | h1 | h1
+      · exact absurd (Or.inl h1) hip
+      · exact absurd (Or.inr h1) hip
+      · exact h1
+    have n4 := hmiss v4 (fun x => hip (Or.inl x))
+    have n6 := hmiss v6 (fun x => hip (Or.inr x))
+    subst n4 n6
+    have hm : Cert.isPresent Claim.missing = false := rfl
+    simp [hm, has, hsia]
+
+/-- **`TbsCert::from_constructed` reads back what `TbsCert::encode_ref` writes**, for every certificate
+whose fields are in the profile (`WF`). -/
+theorem decodeTbs_encodeTbs (d : Decoded) (h : WF d) (op : Bool) (sig : Bytes) :
+    decodeTbs (encodeTbs d) op sig = some (readBack d op sig) := by
+  have hfold := extItems_fold d h
+  have hser := (C17.serial_der_roundtrip d.serial h.serial).1
+  have hfin := finishTbs_final d h op (encodeTbs d) sig
+  unfold decodeTbs
+  have e0 : encodeTbs d =
+      tlv tagSeq (tlv 0xA0 (tlv tagInt [2]) ++ (tlv tagInt (X509.encodeContent d.serial) ++ (sigAlgEnc ++ (d.issuer ++ (tlv tagSeq (timeTlv d.notBefore ++ timeTlv d.notAfter) ++ (d.subject ++ (publicKeyEnc d.keyAlg d.keyUnused d.keyBits ++ tlv 0xA3 (tlv tagSeq (seqs (extItems d)))))))))) := by
+    unfold encodeTbs; simp only [List.append_assoc]
+  rw [e0, takeCons_tlv_nil tagSeq _ (by decide) (by decide)]
+  dsimp only
+  rw [AsDer.takeCons_tlv' 0xA0 _ _ (by decide) (by decide)]
+  dsimp only
+  rw [takePrim_tlv_nil tagInt [2] (by decide) (by decide)]
+  dsimp only
+  simp only [ne_eq, not_true_eq_false, or_self, if_false]
+  rw [IpDer.takePrim_tlv' tagInt _ _ (by decide) (by decide)]
+  dsimp only
+  rw [hser]
+  dsimp only
+  rw [takeSigAlg_enc]
+  dsimp only
+  rw [h.issuer]
+  dsimp only
+  rw [takeValidityCivil_enc _ _ _ h.nb h.na]
+  dsimp only
+  rw [h.subject]
+  dsimp only
+  rw [takePublicKey_enc _ _ _ _ h.key]
+  dsimp only
+  rw [takeCons_tlv_nil 0xA3 _ (by decide) (by decide)]
+  dsimp only
+  simp only [not_true_eq_false, if_false]
+  rw [takeCons_tlv_nil tagSeq _ (by decide) (by decide)]
+  dsimp only
+  simp only [not_true_eq_false, if_false]
+  unfold seqs at e0 ⊢
+  rw [foldCons_items' tagSeq (by decide) (by decide) extension (extItems d) {}, hfold]
+  dsimp only
+  rw [← e0]
+  exact hfin
+
+end Rpki.CertEnc
+
+namespace Rpki.CertEnc
+open Rpki.Der Rpki.CertDer Rpki.Chain Rpki.Consts
+
+/-! ### what satisfies `WF` -/
+
+/-- every canonical chain is read back by the IPv6 reader -/
+theorem claimRead128_of_canon (cl : Claim) (h : ClaimCanon IpDer.maxAddr cl) : ClaimRead 128 cl := by
+  cases cl with
+  | missing => trivial
+  | inherit => trivial
+  | blocks c => exact ⟨IpDer.blocksLoop_encode c _ (IpDer.length_le_encodeBlocks c) h.1, h⟩
+
+/-- every canonical chain of AS numbers (or `inherit`) is read back -/
+theorem asRead_of_canon (cl : Claim) (h : ClaimCanon AsDer.maxAs cl) (hp : cl ≠ .missing) : AsRead cl := by
+  cases cl with
+  | missing => exact absurd rfl hp
+  | inherit => trivial
+  | blocks c => exact h
+
+/-- the names the library makes (`Name::from_pub_key`: one RDN with a commonName in a PrintableString) and
+every name of that shape are complete values for the reader -/
+theorem nameOk_cn (s : Bytes) :
+    NameOk (tlv tagSeq (tlv tagSet (tlv tagSeq (tlv tagOid oidCommonName ++ tlv tagPrintable s)))) := by
+  intro rest
+  unfold takeName
+  rw [AsDer.takeCons_tlv' tagSeq _ rest (by decide) (by decide)]
+  dsimp only
+  have hne : tlv tagSet (tlv tagSeq (tlv tagOid oidCommonName ++ tlv tagPrintable s)) ≠ [] := by simp [tlv]
+  simp only [hne, if_false]
+  -- the RDN loop: one SET
+  have e1 : tlv tagSet (tlv tagSeq (tlv tagOid oidCommonName ++ tlv tagPrintable s)) =
+      (([tlv tagSeq (tlv tagOid oidCommonName ++ tlv tagPrintable s)]).map (tlv tagSet)).flatten := by simp
+  have hattr : nameAttr () (tlv tagOid oidCommonName ++ tlv tagPrintable s) = some () := by
+    unfold nameAttr
+    rw [IpDer.takePrim_tlv' tagOid oidCommonName _ (by decide) (by decide)]
+    have ho : oidOk oidCommonName = true := by decide
+    have hn : tlv tagPrintable s ≠ [] := by simp [tlv]
+    have hskip : skipOne (tlv tagPrintable s) = some [] := by
+      unfold skipOne
+      have hl : (tlv tagPrintable s).length + 1 = ((tlv tagPrintable s).length) + 1 := rfl
+      rw [skipLoop]
+      have ht : takeTagAny (tlv tagPrintable s) = some (tagPrintable, encLen s.length ++ s) := by
+        simp [takeTagAny, tlv, tagPrintable]
+      have hlx : readLenX (encLen s.length ++ s) = some (.definite s.length, s) := by
+        unfold readLenX
+        have hr := AsDer.readLen_encLen' s.length s
+        have hh : ∀ r, encLen s.length ++ s = 0x80 :: r → False := by
+          intro r e
+          unfold encLen at e
+          split at e
+          · simp at e; omega
+          · split at e <;> [skip; split at e <;> [skip; split at e]] <;> simp at e
+        split
+        · rename_i r heq; exact absurd heq (fun e => hh r e)
+        · simp [hr]
+      simp only [ht, hlx]
+      have hc : isCons tagPrintable = false := by decide
+      have ht0 : ¬ tagPrintable = 0 := by decide
+      simp [hc, ht0, post]
+    simp [ho, hn, hskip]
+  have hrdn : nameRdn () (tlv tagSeq (tlv tagOid oidCommonName ++ tlv tagPrintable s)) = some () := by
+    unfold nameRdn
+    have hne2 : tlv tagSeq (tlv tagOid oidCommonName ++ tlv tagPrintable s) ≠ [] := by simp [tlv]
+    simp only [hne2, if_false]
+    have e2 : tlv tagSeq (tlv tagOid oidCommonName ++ tlv tagPrintable s) =
+        (([tlv tagOid oidCommonName ++ tlv tagPrintable s]).map (tlv tagSeq)).flatten := by simp
+    rw [e2, foldCons_items' tagSeq (by decide) (by decide) nameAttr _ ()]
+    simp [hattr]
+  rw [e1, foldCons_items' tagSet (by decide) (by decide) nameRdn _ ()]
+  simp only [List.foldlM_cons, List.foldlM_nil, hrdn]
+  simp only [bind, Option.bind, pure, List.length_append, Nat.add_sub_cancel, List.take_left']
+
+end Rpki.CertEnc
